@@ -12,6 +12,7 @@ import (
 
 // ---- expression constructors ----
 func eNum(v string) J               { return J{"t": "num", "v": v} }
+func eNumSrc(v, src string) J       { return J{"t": "num", "v": v, "src": src} }
 func eStr(v string) J               { return J{"t": "str", "v": v} }
 func eBool(v bool) J                { return J{"t": "bool", "v": v} }
 func eNull() J                      { return J{"t": "null"} }
@@ -157,6 +158,9 @@ func paren(s string, yes bool) string {
 func printExpr(e J) string {
 	switch e["t"] {
 	case "num":
+		if src, ok := e["src"].(string); ok {
+			return src // the author's spelling of the literal (1.0, .5, 1e3, 0x10); "v" is its value in plain decimal
+		}
 		return e["v"].(string)
 	case "str":
 		return jsQuote(e["v"].(string))
